@@ -17,7 +17,8 @@ side ExpandDecl = the manual's textual substitution carried out by hand), progra
     empty, keyword, mixed, default, excess arguments; arguments spelled like other parameters; counts 0..40 for
     REPT/IRP/IRPC/WHILE with a SET counter; IRPN group sizes 1..4 with ragged tails; SHIFT/ALLARGS recursion up to
     20 arguments; the argument list as a sequence SHIFT walks through (family `shifthole`: 0..3 formals, 1..4 excess
-    arguments each independently empty or not, every live formal + ARGCOUNT + ALLARGS after 0..3 SHIFTs); EXITM inside IF in REPT/IRP/WHILE/MACRO/MACRO+REPT; labels private vs GLOBALSYMBOLS; the private
+    arguments each independently empty or not, every live formal + ARGCOUNT + ALLARGS after 0..3 SHIFTs; family `shiftloop`: SHIFT once per iteration of a
+    REPT/IRP/IRPN/IRPC/WHILE nested in the macro, formals / ARGCOUNT / ALLARGS inside and after it); EXITM inside IF in REPT/IRP/WHILE/MACRO/MACRO+REPT; labels private vs GLOBALSYMBOLS; the private
     symbol space across a nested construct (family `scope`: outer REPT/IRP/IRPN/IRPC/WHILE/MACRO expanded twice,
     label defined before, used inside and after, another label defined after an inner REPT/IRP/IRPN/IRPC/WHILE/
     macro call/empty macro/INCLUDE with 0..3 iterations, same-named global label present); nested
@@ -78,8 +79,8 @@ def repaired_in_repo():
             pass
     return "{" + ", ".join('"%s"' % d for d in sorted(out)) + "}"
 
-QUICK_FAMILIES = ["exit", "label", "scope", "incl", "bin", "count", "rec", "shift", "shifthole", "adj", "bind", "special", "attr", "nest2q"]
-THOROUGH_FAMILIES = ["exit", "label", "scope", "incl", "bin", "count", "rec", "shift", "shifthole", "adj", "bind", "special", "attr",
+QUICK_FAMILIES = ["exit", "label", "scope", "incl", "bin", "count", "rec", "shift", "shifthole", "shiftloop", "adj", "bind", "special", "attr", "nest2q"]
+THOROUGH_FAMILIES = ["exit", "label", "scope", "incl", "bin", "count", "rec", "shift", "shifthole", "shiftloop", "adj", "bind", "special", "attr",
                      "nest2", "nest3"]
 
 
@@ -431,6 +432,9 @@ Third round (seed missed: an EMPTY argument in an EXCESS position was dropped fr
   The new family also exposed a defect of the pinned tree (ALLARGS after SHIFT loses leading empty arguments,
   ComputeMacroStrings): named deviation AllArgsLeadingEmpty, proposed_fixes/C11-allargs-after-shift-drops-leading-
   empty.diff; all 94 differing quick-tier programs are exactly the ones the as-coded operator predicts.
+Fourth round (seed missed: SHIFT inside a nested repetition recomputed ARGCOUNT/ALLARGS of the wrong tag) - family
+`shiftloop` added; on a copy of the current /repo:
+  ExpandSHIFT calls ComputeMacroStrings(FirstInputTag) instead of (RunTag) -> RESULT4
 Corrupted traces (MacroProc_CorpusTrace on t_irpn): one token of a delivered body line changed, one delivered line
 dropped, exhausted flag flipped, depth changed -> each REJECTED at the corrupted event.
 All six proposed fixes applied together: 0 violations, no known finding hit, 201/201 golden tests.
